@@ -1037,7 +1037,11 @@ def _repeat(I, a, repeats, axis=None):
 @model("numpy.where")
 def _where(I, c, a=None, b=None):
     if a is None:
-        raise Unsupported("np.where(cond) with one argument")
+        ca = as_arr(c)
+        cells = ca.flat()
+        if ca.ndim == 1 and all(isinstance(x, bool) for x in cells):
+            return (NDArr(obj_array([i for i, x in enumerate(cells) if x]), "i"),)
+        raise Unsupported("np.where(cond) with one symbolic or multi-dimensional argument")
     def one(cc, x, y):
         cc = simp(cc) if is_sym(cc) else cc
         if not is_sym(cc):
